@@ -375,7 +375,7 @@ def vc_range(*a):
 
 
 def vc_len(x):
-    if isinstance(x, EArr):
+    if isinstance(x, EArr) or hasattr(x, "vlen"):
         return x._shape[0]
     if isinstance(x, (SymRange, SymEnumerate, SymZip)):
         return x.length()
@@ -445,10 +445,15 @@ class patched_modules:
         self.modnames, self.names = modnames, names
 
     def __enter__(self):
-        import importlib
+        import importlib, sys as _sys
         self.saved = []
+        mods = []
         for mn in self.modnames:
-            m = importlib.import_module(mn)
+            if mn.endswith("*"):
+                mods += [m for k, m in list(_sys.modules.items()) if k.startswith(mn[:-1]) and m is not None]
+            else:
+                mods.append(importlib.import_module(mn))
+        for m in mods:
             for n in self.names:
                 had = n in vars(m)
                 self.saved.append((m, n, had, vars(m).get(n)))
